@@ -1,20 +1,32 @@
 package main
 
-// Layer "directed": one schedule, the observer-side view of a race that C06 also aims at.
-// Node A adds the new key k to an open transaction (the lease allocator finds no digest
-// and makes A the leaseholder); before A commits, node B creates k too (B's version
-// counter is ahead of A's) and that write reaches A through gossip while B is still
-// offering it (feedback to B is delayed so B's SIR state stays "infected"). A commits.
-// Subscribers on A are then observed until B's operation has been offered to A at least
-// three more times.
+// Layer "directed": the observer-side view of the stale-lease race, for transactions of
+// 1-4 operations and EVERY split of the transaction into operations that lose and
+// operations that win at commit.
 //
-// Oracle (statement): a subscriber is never notified of an operation that lost to a newer
-// one already stored (A's own operation has the lower version), and is notified of each
-// (key, version) at most once no matter how often gossip redelivers it (B's operation).
+// Node A adds m new keys k0..k(m-1) to an open transaction (the lease allocator finds no
+// digest and makes A the leaseholder of each). For the keys in the "lose" set node B
+// creates the key too (B's version counter is ahead of A's) and B's write reaches A through
+// gossip while B keeps offering it (feedback to B is delayed, so B's SIR state stays
+// "infected"). A commits. Subscribers on A — DB.OnChange, NewObservable() and
+// NewObservable(IgnoreHostLeaseholder) — are observed until B has offered each of its
+// operations to A at least three more times and gossip has then quiesced.
+//
+// Oracle (statement):
+//   never stale   no subscriber is told of A's operation on a key of the lose set (it lost
+//                 to a newer one already stored and was never written to storage);
+//   once          B's operation on such a key is told exactly once however often it is
+//                 redelivered;
+//   complete      the unfiltered subscribers are told, once, of A's operation on every key
+//                 of the win set (it changed A's stored state);
+//   filter        the IgnoreHostLeaseholder log equals the unfiltered log minus the changes
+//                 led by A, exactly (so it contains none of A's operations).
 
 import (
 	"context"
 	"fmt"
+	"runtime"
+	"sync"
 	"time"
 
 	"verif/lib/aspenkit"
@@ -23,98 +35,302 @@ import (
 
 const wd = 30 * time.Second
 
+type split struct {
+	m    int
+	lose uint // bit i set: key i is also created by B before A commits
+}
+
+func allSplits() []split {
+	var out []split
+	for m := 1; m <= 4; m++ {
+		for mask := uint(0); mask < 1<<m; mask++ {
+			out = append(out, split{m, mask})
+		}
+	}
+	return out // 2+4+8+16 = 30
+}
+
 func layerDirected(h *harness.H) {
-	h.AddRule("directed: case = (3-4 nodes, A, B, number of prior writes of B 1-5); non-trivial = schedule fully established (B's op reached A before A's commit and was offered to A >= 3 times afterwards)")
-	n := h.N(6, 150)
+	h.AddRule("directed: case = (transaction size 1-4, lose-set bitmask: all 30 splits per pass, 3-4 nodes, A, B, number of prior writes of B 4-8, set-or-delete per op of A); distinct = split + parameters; non-trivial = schedule fully established (B's op on every lose key reached A before A's commit and was offered to A >= 3 times afterwards, gossip quiesced)")
+	splits := allSplits()
+	n := h.N(len(splits), 5*len(splits))
+	par := runtime.GOMAXPROCS(0) / 2
+	if par < 1 {
+		par = 1
+	}
+	if par > 6 {
+		par = 6
+	}
+	var wg sync.WaitGroup
+	cases := make(chan int)
+	for w := 0; w < par; w++ {
+		wg.Add(1)
+		go func() {
+			defer wg.Done()
+			for c := range cases {
+				h.Eval()
+				if inc := staleLeaseCase(h, c, splits[c%len(splits)]); inc != "" {
+					h.Inconclusive("directed:" + inc)
+					fmt.Printf("NOTE: directed case %d inconclusive: %s\n", c, inc)
+				}
+			}
+		}()
+	}
 	for c := 0; c < n; c++ {
 		if h.Skip("directed", c) {
 			continue
 		}
-		h.Eval()
-		if inc := staleLeaseCase(h, c); inc != "" {
-			h.Inconclusive("directed:" + inc)
-			fmt.Printf("NOTE: directed case %d inconclusive: %s\n", c, inc)
-		}
+		cases <- c
 	}
+	close(cases)
+	wg.Wait()
 }
 
-func staleLeaseCase(h *harness.H, c int) string {
+type dirWitness struct {
+	Why      string              `json:"why"`
+	A        int                 `json:"A"`
+	B        int                 `json:"B"`
+	TxOps    []string            `json:"tx_ops_of_A"`
+	LoseKeys []string            `json:"keys_also_created_by_B"`
+	Before   map[string]string   `json:"A_held_before_commit"`
+	After    map[string]string   `json:"A_holds_after_commit"`
+	Logs     map[string][]string `json:"A_subscriber_logs"`
+	History  aspenkit.History    `json:"history_of_B"`
+}
+
+func renderLog(ev []aspenkit.Notification) []string {
+	var out []string
+	for _, e := range ev {
+		if e.Del {
+			out = append(out, fmt.Sprintf("tx%d %s DEL", e.Tx, e.Key))
+		} else {
+			out = append(out, fmt.Sprintf("tx%d %s=%s", e.Tx, e.Key, e.Value))
+		}
+	}
+	return out
+}
+
+func staleLeaseCase(h *harness.H, c int, sp split) string {
 	ctx := context.Background()
 	r := h.Rand("directed", c)
 	nodes := r.Range(3, 4)
 	A := r.Intn(nodes)
 	B := (A + 1 + r.Intn(nodes-1)) % nodes
-	p := r.Range(1, 5)
+	p := r.Range(4, 8) // B's counter is ahead of anything A's transaction (versions 1..4) can get
 	cl, err := aspenkit.OpenCluster(ctx, r, aspenkit.ClusterParams{Nodes: nodes})
 	if err != nil {
 		return "open:" + err.Error()
 	}
 	defer func() { _ = cl.Close() }()
-	kb := aspenkit.KeySpec{Name: "kb", Writer: B, Leader: B}
-	k := aspenkit.KeySpec{Name: "k", Writer: B, Leader: B}
 	hist := aspenkit.History{}
-	sub := cl.Subscribe(A, "all", false, "start")
+	subs := map[string]*aspenkit.SubLog{
+		"OnChange":              cl.Subscribe(A, "OnChange", false, "start"),
+		"NewObservable()":       cl.Subscribe(A, "NewObservable()", false, "start"),
+		"IgnoreHostLeaseholder": cl.Subscribe(A, "IgnoreHostLeaseholder", true, "start"),
+	}
+	kb := aspenkit.KeySpec{Name: "kb", Writer: B, Leader: B}
 	for i := 0; i < p; i++ {
 		if w := cl.DoWrite(ctx, hist, kb, false, 0); !w.OK {
 			return "write:" + w.Err
 		}
 	}
 	if err := cl.WaitQuiesced(ctx, 8, wd); err != nil {
-		return "no-quiescence"
+		return "no-quiescence-0"
 	}
+	// A's transaction: m new keys; ops on lose keys are Sets (a Delete of an unknown key
+	// also claims the lease, but keep B's and A's values distinguishable), ops on win keys
+	// may be deletes of a key nobody has (still an operation that changes A's state: a
+	// tombstone digest is stored).
 	tx := cl.Nodes[A].DB.OpenTx()
 	defer func() { _ = tx.Close() }()
-	if err := tx.Set(ctx, []byte("k"), []byte("from-A")); err != nil {
-		return "tx-set:" + err.Error()
+	var keys, txOps, loseKeys []string
+	aVal := map[string]string{}
+	aDel := map[string]bool{}
+	for i := 0; i < sp.m; i++ {
+		k := fmt.Sprintf("k%d", i)
+		keys = append(keys, k)
+		lose := sp.lose&(1<<uint(i)) != 0
+		if lose {
+			loseKeys = append(loseKeys, k)
+		}
+		if !lose && r.Chance(1, 4) {
+			aDel[k] = true
+			txOps = append(txOps, k+" DEL")
+			if err := tx.Delete(ctx, []byte(k)); err != nil {
+				return "tx-delete:" + err.Error()
+			}
+			continue
+		}
+		aVal[k] = "from-A-" + k
+		txOps = append(txOps, k+"="+aVal[k])
+		if err := tx.Set(ctx, []byte(k), []byte(aVal[k])); err != nil {
+			return "tx-set:" + err.Error()
+		}
 	}
-	cl.Net.HoldFeedbackTo(cl.Nodes[B].Addr) // B never learns that the others have its op
-	wb := cl.DoWrite(ctx, hist, k, false, 0)
-	if !wb.OK {
-		return "write:" + wb.Err
+	cl.Net.HoldFeedbackTo(cl.Nodes[B].Addr) // B never learns that the others have its ops
+	bVal := map[string]string{}
+	before := map[string]aspenkit.KeyState{}
+	for _, k := range loseKeys {
+		wb := cl.DoWrite(ctx, hist, aspenkit.KeySpec{Name: k, Writer: B, Leader: B}, false, 0)
+		if !wb.OK {
+			return "write:" + wb.Err
+		}
+		bVal[k] = wb.Value
 	}
-	before, ok := cl.WaitKey(ctx, A, "k", wd, func(s aspenkit.KeyState) bool { return s.Present && s.Value == wb.Value })
-	if !ok {
-		return "B's-write-did-not-reach-A"
+	for _, k := range loseKeys {
+		ks, ok := cl.WaitKey(ctx, A, k, wd, func(s aspenkit.KeyState) bool { return s.Present && s.Value == bVal[k] })
+		if !ok {
+			return "B's-write-did-not-reach-A"
+		}
+		before[k] = ks
+	}
+	recvBase := map[string]int{}
+	for _, k := range loseKeys {
+		recvBase[k] = cl.Net.Received(cl.Nodes[A].Addr, k, before[k].Version)
 	}
 	if err := tx.Commit(ctx); err != nil {
 		return "tx-commit:" + err.Error()
 	}
-	after, _ := aspenkit.ReadKey(ctx, cl.Nodes[A].Eng, "k")
-	base := cl.Net.Received(cl.Nodes[A].Addr, "k", before.Version)
+	after := map[string]aspenkit.KeyState{}
+	for _, k := range keys {
+		after[k], _ = aspenkit.ReadKey(ctx, cl.Nodes[A].Eng, k)
+	}
 	deadline := time.Now().Add(wd)
-	for cl.Net.Received(cl.Nodes[A].Addr, "k", before.Version) < base+3 {
-		if time.Now().After(deadline) {
-			return "B's-op-not-offered-again"
+	for _, k := range loseKeys {
+		for cl.Net.Received(cl.Nodes[A].Addr, k, before[k].Version) < recvBase[k]+3 {
+			if time.Now().After(deadline) {
+				return "B's-op-not-offered-again"
+			}
+			time.Sleep(cl.P.KVInterval)
 		}
-		time.Sleep(cl.P.KVInterval)
 	}
-	time.Sleep(10 * cl.P.KVInterval) // let A's pipeline and handlers drain; not deciding: fewer notifications can only hide a violation
 	cl.Net.ReleaseFeedbackTo(cl.Nodes[B].Addr)
-	ev := sub.Events()
-	var kEv []aspenkit.Notification
-	for _, e := range ev {
-		if e.Key == "k" {
-			kEv = append(kEv, e)
+	w := dirWitness{A: A + 1, B: B + 1, TxOps: txOps, LoseKeys: loseKeys, Before: map[string]string{}, After: map[string]string{}, History: hist}
+	for k, v := range before {
+		w.Before[k] = v.String()
+	}
+	for k, v := range after {
+		w.After[k] = v.String()
+	}
+	isLose := map[string]bool{}
+	for _, k := range loseKeys {
+		isLose[k] = true
+	}
+	// The sanity of the schedule itself: on a lose key B's op must be the newer one.
+	for _, k := range loseKeys {
+		if !before[k].HasDigest || before[k].Lease == cl.Nodes[A].Key {
+			return "lose-key-not-led-by-B"
 		}
 	}
-	w := map[string]any{"A": A + 1, "B": B + 1, "A_held_before_commit": before, "A_holds_after_commit": after, "A_subscriber_log_for_k": kEv, "history": hist}
-	nB, sawBFirst := 0, false
-	for _, e := range kEv {
-		if e.Value == wb.Value {
-			nB++
-			sawBFirst = true
+	evaluate := func(report bool) bool {
+		ok := true
+		logs := map[string][]aspenkit.Notification{}
+		w.Logs = map[string][]string{}
+		for name, s := range subs {
+			logs[name] = s.Events()
+			w.Logs[name] = renderLog(logs[name])
 		}
-		if e.Value == "from-A" && sawBFirst && after.HasDigest && before.HasDigest &&
-			aspenkit.Newer(before.Version, before.Lease, after.Version, after.Lease) {
-			why := fmt.Sprintf("node %d stored %s for k (and told its subscriber) and then notified the subscriber of its own older operation %s when the open transaction committed", A+1, before, after)
-			h.Violation("directed", c, "c13:stale-lease-commit:notified-op-that-lost-to-stored-newer", why, w)
+		viol := func(sig, why string) {
+			ok = false
+			if report {
+				w.Why = why
+				h.Violation("directed", c, sig, why, w)
+			}
 		}
+		for name, ev := range logs {
+			count := map[string]int{}
+			for _, e := range ev {
+				if e.Del {
+					count[e.Key+" DEL"]++
+				} else {
+					count[e.Key+"="+e.Value]++
+				}
+			}
+			for _, k := range keys {
+				aOp := k + "=" + aVal[k]
+				if aDel[k] {
+					aOp = k + " DEL"
+				}
+				if isLose[k] {
+					if count[aOp] > 0 {
+						viol("c13:stale-lease-commit:notified-op-that-lost-to-stored-newer",
+							fmt.Sprintf("tx of %d ops, %d of them losing: node %d held %s for %s when its transaction committed, its own op (%s) lost and was never stored, yet subscriber %s was told of it", sp.m, len(loseKeys), A+1, before[k], k, aOp, name))
+					}
+					bOp := k + "=" + bVal[k]
+					if count[bOp] > 1 {
+						viol("c13:stale-lease-commit:operation-notified-twice",
+							fmt.Sprintf("node %d subscriber %s was told %d times of %s (version %d led by node %d)", A+1, name, count[bOp], bOp, before[k].Version, before[k].Lease))
+					}
+					if count[bOp] == 0 {
+						viol("c13:stale-lease-commit:stored-remote-op-not-notified",
+							fmt.Sprintf("node %d stores %s (led by node %d) but subscriber %s was never told", A+1, bOp, before[k].Lease, name))
+					}
+					continue
+				}
+				// win key: led by A -> unfiltered exactly once, filtered never
+				want := 1
+				if name == "IgnoreHostLeaseholder" {
+					want = 0
+				}
+				if count[aOp] != want {
+					sig := "c13:stale-lease-commit:winning-op-not-notified"
+					switch {
+					case want == 0:
+						sig = "c13:stale-lease-commit:filter-passed-host-led-change"
+					case count[aOp] > 1:
+						sig = "c13:stale-lease-commit:winning-op-notified-twice"
+					}
+					viol(sig, fmt.Sprintf("tx of %d ops, %d of them losing: node %d's own op %s won at commit (node stores %s); subscriber %s was told %d times, expected %d", sp.m, len(loseKeys), A+1, aOp, after[k], name, count[aOp], want))
+				}
+			}
+		}
+		// filter exactness: filtered == unfiltered minus the changes led by A. A leads
+		// exactly the win keys here (kb and the lose keys are led by B).
+		var ur []aspenkit.Notification
+		for _, e := range logs["OnChange"] {
+			if e.Key == "kb" || isLose[e.Key] {
+				ur = append(ur, e)
+			}
+		}
+		fe := logs["IgnoreHostLeaseholder"]
+		same := len(ur) == len(fe)
+		for i := 0; same && i < len(ur); i++ {
+			same = sameChange(ur[i], fe[i])
+		}
+		if !same {
+			viol("c13:stale-lease-commit:filtered-view-differs-from-unfiltered",
+				fmt.Sprintf("node %d: the IgnoreHostLeaseholder log (%d changes) is not the OnChange log minus the changes led by the host (%d changes)", A+1, len(fe), len(ur)))
+		}
+		// the two unfiltered observables must agree
+		u1, u2 := logs["OnChange"], logs["NewObservable()"]
+		same = len(u1) == len(u2)
+		for i := 0; same && i < len(u1); i++ {
+			same = sameChange(u1[i], u2[i])
+		}
+		if !same {
+			viol("c13:stale-lease-commit:unfiltered-observables-differ", fmt.Sprintf("node %d: OnChange saw %d changes, NewObservable() %d, or in a different order", A+1, len(u1), len(u2)))
+		}
+		return ok
 	}
-	if nB > 1 {
-		why := fmt.Sprintf("node %d's subscriber was notified %d times of k=%q (version %d led by node %d): gossip redelivered it after the node's own older commit had replaced it", A+1, nB, wb.Value, before.Version, before.Lease)
-		h.Violation("directed", c, "c13:stale-lease-commit:operation-notified-twice", why, w)
+	if err := cl.WaitQuiesced(ctx, 8, wd); err != nil {
+		return "no-quiescence-final"
 	}
-	h.Count("directed_notifications_for_k", len(kEv))
-	h.Distinct(fmt.Sprintf("n%d A%d B%d p%d", nodes, A, B, p))
+	if !evaluate(false) {
+		// handlers may lag behind the pipeline: look again after a much longer quiet period
+		if err := cl.WaitQuiesced(ctx, 50, wd); err != nil {
+			return "no-quiescence-extended"
+		}
+		evaluate(true)
+	}
+	n := 0
+	for _, s := range subs {
+		n += len(s.Events())
+	}
+	h.Count("directed_notifications", n)
+	h.Count(fmt.Sprintf("directed_runs_tx%d", sp.m), 1)
+	if len(loseKeys) > 0 && len(loseKeys) < sp.m {
+		h.Count("directed_runs_with_winner_and_loser", 1)
+	}
+	h.Distinct(fmt.Sprintf("m%d lose%b n%d A%d B%d p%d del%v", sp.m, sp.lose, nodes, A, B, p, aDel))
 	return ""
 }
